@@ -477,8 +477,87 @@ def plumbing_sweep(ctx, quick):
     ctx.require(n_obs == n_all, "quadrature orders %s vs %s are observable for every non-sparse factory (%d of %d)" % (SWEEP_P, DEFAULT_Q, n_obs, n_all))
 
 
+# ---------------------------------------------------------------------------------------------------------------------
+# Layer 3: weak form, strong form and application of one operator object in any order
+# ---------------------------------------------------------------------------------------------------------------------
+def form_histories(ctx, quick):
+    """E2 over call sequences {weak_form, strong_form, op * f} on one operator object (single, complex, blocked, generalized blocked):
+    every observation must equal what a fresh object of the same construction gives for that call alone (the lazily cached forms must
+    not overwrite one another)."""
+    import itertools
+
+    import scipy.linalg as sla
+
+    import bempp_cl.api as bem
+
+    mesh = meshes.get("tet", ctx.seed)
+    grid = SP.make_grid(mesh)
+    p0 = SP.make_space(grid, {"kind": "DP0"})
+    p1 = SP.make_space(grid, {"kind": "P1"})
+    B = ops.boundary
+    par = ops.params(3, 4)
+    M0 = np.asarray(B("sparse", "identity", p0, p0, p0).weak_form().to_dense())
+    M1 = np.asarray(B("sparse", "identity", p1, p1, p1).weak_form().to_dense())
+
+    def blocked():
+        blk = bem.BlockedOperator(2, 2)
+        blk[0, 0] = B("laplace", "single_layer", p0, p0, p0, par=par)
+        blk[0, 1] = B("laplace", "double_layer", p1, p0, p0, par=par)
+        blk[1, 0] = B("laplace", "adjoint_double_layer", p0, p1, p1, par=par)
+        blk[1, 1] = B("sparse", "identity", p1, p1, p1)
+        return blk
+
+    makers = {
+        "single": (lambda: B("laplace", "single_layer", p0, p0, p0, par=par), [p0], M0),
+        "complex": (lambda: B("helmholtz", "single_layer", p0, p0, p0, k=1.1 + 0.2j, par=par), [p0], M0),
+        "blocked": (blocked, [p0, p1], sla.block_diag(M0, M1)),
+        "generalized": (lambda: bem.GeneralizedBlockedOperator([[B("laplace", "single_layer", p0, p0, p0, par=par), B("laplace", "double_layer", p1, p0, p0, par=par)],
+                                                                 [B("laplace", "adjoint_double_layer", p0, p1, p1, par=par), B("sparse", "identity", p1, p1, p1)]]),
+                        [p0, p1], sla.block_diag(M0, M1)),
+    }
+    events = ["weak", "strong", "apply"]
+    depth = 3 if quick else 4
+    for name, (make, dspaces, mass) in makers.items():
+        W = np.asarray(make().weak_form().to_dense())
+        S = np.linalg.solve(mass, W)
+        n = W.shape[1]
+        c = np.cos(np.arange(n) * 0.7 + 0.2)
+        want = {"weak": W, "strong": S, "apply": S @ c}
+        scale = {k: float(np.max(np.abs(v))) for k, v in want.items()}
+        for hist in itertools.chain.from_iterable(itertools.product(events, repeat=m) for m in range(1, depth + 1)):
+            op = make()
+            case = {"layer": "form-history", "operator": name, "history": list(hist)}
+            got = None
+            try:
+                for ev in hist:
+                    if ev == "weak":
+                        w1 = op.weak_form()
+                        if op.weak_form() is not w1:
+                            ctx.violation("form-history/%s/weak-form-identity" % name, case, "repeated weak_form() returned a different object")
+                        got = np.asarray(w1.to_dense())
+                    elif ev == "strong":
+                        got = np.asarray(op.strong_form().to_dense())
+                    else:
+                        fs, off = [], 0
+                        for sp in dspaces:
+                            fs.append(bem.GridFunction(sp, coefficients=c[off: off + sp.global_dof_count]))
+                            off += sp.global_dof_count
+                        res = op * (fs if len(fs) > 1 else fs[0])
+                        got = np.concatenate([np.asarray(r_.coefficients).reshape(-1) for r_ in (res if isinstance(res, list) else [res])])
+            except Exception as exc:  # noqa: BLE001
+                ctx.violation("form-history/%s/exception:%s" % (name, type(exc).__name__), case, repr(exc))
+                continue
+            ctx.transitions += len(hist)
+            ctx.case(("form-history", name, hist), sub="form-history", sample=case if len(ctx.samples) < 8 and len(hist) == 3 and name == "blocked" else None)
+            ctx.check_close("form-history/%s/%s" % (name, hist[-1]), case, got, want[hist[-1]], 1e-11, "form-history", scale=scale[hist[-1]])
+
+
 def run(ctx):
     quick = ctx.tier == "quick"
+    if not ctx.only or "forms" in ctx.only:
+        form_histories(ctx, quick)
+        if ctx.only and not ({"bfs", "sweep"} & set(ctx.only)):
+            return ctx.finish(rule="form histories only")
     if not (ctx.only and "bfs" in ctx.only and "sweep" not in ctx.only):
         plumbing_sweep(ctx, quick)
         if ctx.only and "bfs" not in ctx.only:
